@@ -1,4 +1,5 @@
 import InfOCFModel.CCert
+import InfOCFModel.CRepModel
 /-!
 # Refutation certificates for linear systems over the naturals (with constants)
 
@@ -81,5 +82,29 @@ def frontCertCheck (Ω : List World) (D : List Cond) (front : List (List Nat)) (
   (choices (tab.map (·.V))).all fun ch =>
     (choices (front.map fun _ => List.range D.length)).all fun cs =>
       pool.any fun lf => linRefute (frontIneqs D tab ch front cs lf)
+
+/-! ### c-revision: "no parameters exist" -/
+
+/-- coefficients of the revised rank of world `w` over the variables `γ⁺_1 … γ⁺_k, γ⁻_1 … γ⁻_k` -/
+def revRowV (R : List Cond) (w : World) : List Nat :=
+  indV R (R.filter (·.ver w)) ++ indV R (R.filter (·.fal w))
+
+/-- multipliers of one refutation: `am` aligned with the revision conditionals (inner lists aligned with the falsifying
+worlds of the conditional, in the order of `Ω`), `zm` the weight of `Σ γ⁺ ≤ 0` (used when γ⁺ is fixed to zero) -/
+structure RLeaf where
+  am : List (List Nat)
+  zm : Nat
+
+def revIneqs (Ω : List World) (κ : World → Nat) (R : List Cond) (gpz : Bool) (ch : List World) (lf : RLeaf) :
+    List (Nat × LIneq) :=
+  (((R.zip ch).zip lf.am).flatMap fun x =>
+      ((Ω.filter x.1.1.fal).zip x.2).map fun y =>
+        (y.2, (⟨revRowV R x.1.2, κ x.1.2 + 1, revRowV R y.1, κ y.1⟩ : LIneq)))
+  ++ (if gpz then [(lf.zm, (⟨List.replicate R.length 1, 0, [], 0⟩ : LIneq))] else [])
+
+/-- every choice of one verifying world per revision conditional is refuted by a leaf of the pool -/
+def revCertCheck (Ω : List World) (κ : World → Nat) (R : List Cond) (gpz : Bool) (pool : List RLeaf) : Bool :=
+  (choices (R.map fun i => Ω.filter i.ver)).all fun ch =>
+    pool.any fun lf => linRefute (revIneqs Ω κ R gpz ch lf)
 
 end InfOCF
